@@ -388,7 +388,25 @@ def gen_op(r, ref, malformed):
         if k == 'avf':
             return (k, r.choice(VTS), [anyl(), Unhashable([1]), anyl()])
     k = r.choice(['av', 'av', 'av', 'al', 'al', 'sl', 'aq', 'aq', 'aq', 'sq', 'sq', 'ri', 'rv', 'sc', 'of', 'cv', 'cv', 'fx', 'fl',
-                  'rl', 'rli', 'cl', 'slb', 'sub', 'stb', 'up', 'alf', 'aqf', 'avf', 'alv'])
+                  'rl', 'rli', 'cl', 'slb', 'sub', 'stb', 'up', 'alf', 'aqf', 'avf', 'alv', 'fxs', 'avm'])
+    if k == 'fxs':
+        # fix_variables: a wrapper of the mixin over fix_variable (valid assignments; dict / pairs / iterator)
+        vs = r.sample(L, r.randint(0, min(3, len(L)))) if L else []
+        return (k, [(v, F(r.choice([-1, 0, 1, 1, 2]))) for v in vs], r.choice(['dict', 'pairs', 'iter']))
+    if k == 'avm':
+        # add_variables_from_model: add_variable per variable of another model (new labels, or labels the receiver has with the
+        # same vartype and bounds), the whole model or a chosen subset / order of its variables
+        o = RefQ(ref.dt)
+        for _ in range(r.randint(0, 4)):
+            v = anyl()
+            if v in o.lin:
+                continue
+            if v in ref.lin:
+                o.add_variable(ref.vt[v], v, ref.lb[v], ref.ub[v])
+            else:
+                o.add_variable(r.choice(VTS), v, r.choice(BOUNDS_L), r.choice(BOUNDS_U))
+        sub = None if r.random() < .5 or not o.labels else r.sample(o.labels, r.randint(1, len(o.labels)))
+        return (k, o, sub)
     if k == 'av':
         t = r.choice(VTS)
         return (k, t, None if r.random() < .2 else anyl(), r.choice(BOUNDS_L), r.choice(BOUNDS_U))
@@ -465,6 +483,17 @@ def gen_op(r, ref, malformed):
 
 def orat(x):
     return '-' if x is None else rat(x)
+
+
+def expand(op):
+    """the single calls a wrapper of the Python layer makes (these go to the Lean model one line each)"""
+    k = op[0]
+    if k == 'fxs':
+        return [('fx', v, a) for v, a in op[1]]
+    if k == 'avm':
+        o = op[1]
+        return [('av', o.vt[v], v, None if o.vt[v] in BIN else o.lb[v], None if o.vt[v] in BIN else o.ub[v]) for v in (op[2] if op[2] is not None else o.labels)]
+    return [op]
 
 
 def line_of(op):
@@ -585,6 +614,13 @@ def src_of(op):
     if k == 'alf': return f'q.add_linear_from({[(v, pyval(x)) for v, x in op[2]]!r}{kw(op[1])})'
     if k == 'aqf': return f'q.add_quadratic_from({[(u, v, pyval(x)) for u, v, x in op[1]]!r})'
     if k == 'avf': return f'q.add_variables_from({op[1]!r}, {list(op[2])!r})'
+    if k == 'fxs':
+        lit = repr([(v, pyval(x)) for v, x in op[1]])
+        return f'q.fix_variables({"dict(" + lit + ")" if op[2] == "dict" else "iter(" + lit + ")" if op[2] == "iter" else lit})'
+    if k == 'avm':
+        o = op[1]
+        return (f'q.add_variables_from_model(mk_other({[(v, o.vt[v], float(o.lb[v]), float(o.ub[v]), float(o.lin[v])) for v in o.labels]!r}, [], 0.0, q.dtype)'
+                + (f', variables={list(op[2])!r}' if op[2] is not None else '') + ')')
     raise AssertionError(k)
 
 
@@ -624,6 +660,15 @@ def apply_real(q, op):
     elif k == 'alf': q.add_linear_from([(v, pyval(x)) for v, x in op[2]], **kwd(op[1]))
     elif k == 'aqf': q.add_quadratic_from([(u, v, pyval(x)) for u, v, x in op[1]])
     elif k == 'avf': q.add_variables_from(op[1], list(op[2]))
+    elif k == 'fxs':
+        items = [(v, pyval(x)) for v, x in op[1]]
+        q.fix_variables(dict(items) if op[2] == 'dict' else iter(items) if op[2] == 'iter' else items)
+    elif k == 'avm':
+        other = mk_other(op[1], q.dtype)
+        if op[2] is None:
+            q.add_variables_from_model(other)
+        else:
+            q.add_variables_from_model(other, variables=list(op[2]))
     else:
         raise AssertionError(k)
 
@@ -679,15 +724,23 @@ def apply_ref(P, op):
         for v in a[1]:
             if isinstance(v, Unhashable) or not P.add_variable(a[0], v, None, None): return False
         return True
+    if k == 'fxs':
+        for v, x in a[0]:
+            if not P.fix_variable(v, x): return False
+        return True
+    if k == 'avm':
+        for p in expand(op):
+            if not P.add_variable(*p[1:]): return False
+        return True
     raise AssertionError(k)
 
 
-BULK = ('alf', 'aqf', 'avf')
+BULK = ('alf', 'aqf', 'avf', 'fxs', 'avm')
 SITE = {'av': 'add_variable', 'al': 'add_linear', 'sl': 'set_linear', 'aq': 'add_quadratic', 'sq': 'set_quadratic',
         'ri': 'remove_interaction', 'rv': 'remove_variable', 'sc': 'scale', 'of': 'offset.setter', 'cv': 'change_vartype',
         'fx': 'fix_variable', 'fl': 'flip_variable', 'rl': 'relabel_variables', 'rli': 'relabel_variables_as_integers', 'cl': 'clear',
         'slb': 'set_lower_bound', 'sub': 'set_upper_bound', 'stb': 'spin_to_binary', 'up': 'update', 'alf': 'add_linear_from',
-        'aqf': 'add_quadratic_from', 'avf': 'add_variables_from'}
+        'aqf': 'add_quadratic_from', 'avf': 'add_variables_from', 'fxs': 'fix_variables', 'avm': 'add_variables_from_model'}
 
 
 def repro_script(dt, hist, tail):
@@ -714,7 +767,8 @@ def qm_history(ctx, r, dt, nops, lines, expect, meta, malformed_rate):
         partial = (not okx) and not new.same(before)
         if not all(fits(x, MANT[dt]) for x in new.values()):
             ctx.tick('cut_for_precision'); break
-        ln = line_of(op)
+        lns = [line_of(p) for p in expand(op)]
+        ln = ' ; '.join(lns)
         src = src_of(op)
         hist.append('try:\n    ' + src + '\nexcept Exception as e: print("raised", type(e).__name__, e)')
         exc = None
@@ -779,7 +833,9 @@ def qm_history(ctx, r, dt, nops, lines, expect, meta, malformed_rate):
                     fail_prop('changed on raise', f'{src} raised {type(exc).__name__} but changed the model: {before.text()} -> {got}')
                     return
                 ref = before
-        lines.append(ln); expect.append(('text', ('err ' if raised else 'ok ') + got)); meta.append(('qm-' + dt, src, list(hist[-12:])))
+        for j, l1 in enumerate(lns):
+            lines.append(l1); expect.append(('text', ('err ' if raised else 'ok ') + got) if j == len(lns) - 1 else ('skip', ''))
+            meta.append(('qm-' + dt, src, list(hist[-12:])))
         if r.random() < .35 or step == nops - 1:
             try:
                 bad = check_reads(q, ref, r)
